@@ -656,9 +656,38 @@ func helperCall(v ssa.Value) (*ssa.Call, int) {
 	return nil, 0
 }
 
+// isInduction: the value is a loop counter of this function: a phi, or a phi
+// plus/minus a constant (decided on the SSA value, not on its descriptor).
 func (a *FnAnalysis) isInduction(v ssa.Value) bool {
-	d := a.D.Val(v)
-	return strings.HasPrefix(d, "phi") || strings.HasPrefix(d, "(phi")
+	for i := 0; i < 4; i++ {
+		switch x := v.(type) {
+		case *ssa.Convert:
+			v = x.X
+		case *ssa.Phi:
+			for _, e := range x.Edges {
+				if b, ok := e.(*ssa.BinOp); ok && (b.Op == token.ADD || b.Op == token.SUB) {
+					if b.X == ssa.Value(x) || b.Y == ssa.Value(x) {
+						return true
+					}
+				}
+			}
+			return false
+		case *ssa.BinOp:
+			if x.Op != token.ADD && x.Op != token.SUB {
+				return false
+			}
+			if _, ok := x.Y.(*ssa.Const); ok {
+				v = x.X
+			} else if _, ok := x.X.(*ssa.Const); ok {
+				v = x.Y
+			} else {
+				return false
+			}
+		default:
+			return false
+		}
+	}
+	return false
 }
 
 func unionStr(a, b []string) []string {
@@ -712,6 +741,7 @@ func (a *FnAnalysis) AcceptCount() int { return len(a.acceptSites()) }
 // off-by-one or a swapped operand changes the canonical form.
 func (a *FnAnalysis) Bounds() []string {
 	set := map[string]bool{}
+	count := map[string]int{}
 	for _, b := range a.Fn.Blocks {
 		if _, reached := a.mustIn[b]; !reached || len(b.Instrs) == 0 {
 			continue
@@ -741,14 +771,17 @@ func (a *FnAnalysis) Bounds() []string {
 			}
 		}
 		// loop induction tests (an operand IS the loop counter) are not bounds of the input
-		ind := func(v ssa.Value) bool {
-			d := a.D.Val(v)
-			return strings.HasPrefix(d, "phi") || strings.HasPrefix(d, "(phi")
-		}
-		if ind(bo.X) || ind(bo.Y) {
+		if a.isInduction(bo.X) || a.isInduction(bo.Y) {
 			continue
 		}
-		set[c.Desc] = true
+		// the same test made at several places counts several times ("cond", "cond #2", …):
+		// dropping one of two nil tests is a change, inverting a branch is not
+		count[c.Desc]++
+		if n := count[c.Desc]; n > 1 {
+			set[fmt.Sprintf("%s #%d", c.Desc, n)] = true
+		} else {
+			set[c.Desc] = true
+		}
 	}
 	// bounds tested inside small unexported helpers count for their callers
 	if a.depth < 2 {
@@ -772,7 +805,16 @@ func (a *FnAnalysis) Bounds() []string {
 					args = append(args, a.D.Val(arg))
 				}
 				for _, s := range hb {
-					set[SubstParams(s, args)] = true
+					if i := strings.LastIndex(s, " #"); i > 0 {
+						s = s[:i]
+					}
+					s = SubstParams(s, args)
+					count[s]++
+					if n := count[s]; n > 1 {
+						set[fmt.Sprintf("%s #%d", s, n)] = true
+					} else {
+						set[s] = true
+					}
 				}
 			}
 		}
@@ -836,7 +878,18 @@ func (a *FnAnalysis) Conds() []string {
 			continue
 		}
 		c := a.D.CanonCond(ifi.Cond)
-		if strings.HasPrefix(c.Desc, "lt(phi") || strings.HasPrefix(c.Desc, "lt((phi") || strings.Contains(c.Desc, "next(range") {
+		cv := ifi.Cond
+		for {
+			if u, ok := cv.(*ssa.UnOp); ok && u.Op == token.NOT {
+				cv = u.X
+				continue
+			}
+			break
+		}
+		if bo, ok := cv.(*ssa.BinOp); ok && (a.isInduction(bo.X) || a.isInduction(bo.Y)) {
+			continue
+		}
+		if strings.Contains(c.Desc, "next(range") {
 			continue
 		}
 		set[c.Desc] = true
